@@ -24,9 +24,18 @@ type Scalar struct {
 // Atom is a canonical boolean atom; neg is the canonical key of its negation.
 type Atom struct {
 	key, neg string
+	// inequality atoms also carry their polynomial: p > 0 (strict) or p >= 0
+	p      *Poly
+	strict bool
 }
 
-func (a Atom) Not() Atom { return Atom{a.neg, a.key} }
+func (a Atom) Not() Atom {
+	n := Atom{key: a.neg, neg: a.key}
+	if a.p != nil {
+		n.p, n.strict = a.p.Neg(), !a.strict
+	}
+	return n
+}
 
 type BoolV struct {
 	isConst bool
@@ -340,7 +349,7 @@ func (e *Engine) symVal(name string, t types.Type, kind SymKind, root string, ax
 	case kNum:
 		return e.symScalar(mk())
 	case kBool:
-		return BoolV{atom: Atom{"b:" + name, "!b:" + name}}
+		return BoolV{atom: Atom{key: "b:" + name, neg: "!b:" + name}}
 	case kStr:
 		return StrV{s: name}
 	case kStruct:
